@@ -285,7 +285,7 @@ struct Driver {
 int main(int argc, char** argv) {
 	vh::Driver d;
 	const char* logPath = nullptr;
-	long watchdog = 120; int threads = 1;
+	long watchdog = 600; int threads = 1;
 	for (int i = 1; i < argc; ++i) {
 		const char* eq = strchr(argv[i], '=');
 		if (!eq) { fprintf(stderr, "bad arg %s\n", argv[i]); return 2; }
